@@ -1231,6 +1231,8 @@ def c04(ck):
     ck.extra["parser_error_transitions_covered"] = 6
     cases = ck.scratch / "hostile_cases.ndjson"
     ck.add_tlc(vlib.gen_cases("Gen_Hostile", "Gen_Hostile_thorough.cfg" if thorough else "Gen_Hostile_quick.cfg", ck.scratch, cases, timeout=1800, xmx="6g"))
+    hcases = ck.scratch / "hdr_cases.ndjson"
+    ck.add_tlc(vlib.gen_cases("Gen_Hdr", "Gen_Hdr_quick.cfg", ck.scratch, hcases, timeout=1200))
     dcases = ck.scratch / "digest_cases.ndjson"
     ck.add_tlc(vlib.gen_cases("Gen_Digests", "Gen_Digests.cfg", ck.scratch, dcases, timeout=600))
     def aborted(e):
@@ -1240,7 +1242,7 @@ def c04(ck):
     def hungry(e):
         e["worst_peak"] = 1048576 + 64 * e["input_len"] + 1
     events = stateless_check(
-        ck, binary, "c04", "Trace_C04", ["--cases", cases, "--digest-cases", dcases, "--mutants", 150000 if thorough else 2500],
+        ck, binary, "c04", "Trace_C04", ["--cases", cases, "--digest-cases", dcases, "--hdr-cases", hcases, "--mutants", 150000 if thorough else 2500],
         [("Outcome", aborted), ("Outcome", panicked), ("Outcome", hungry)],
         lambda e, r: (f"{e.get('family')}:{e.get('exit')}:" + (",".join(sorted({p['op'] + ' ' + p.get('msg', '')[:60] for p in e.get('panics', [])})) or
                       (json.dumps(e.get('input'), sort_keys=True)[:200] if e.get('exit') != 'normal' else 'alloc'))) if e else "?",
